@@ -284,8 +284,13 @@ def open_finding_for(prop, cls):
 
 # ---------------------------------------------------------------- results
 
+CURRENT_RESULT = None
+
+
 class Result:
     def __init__(self, prop, tier, level):
+        global CURRENT_RESULT
+        CURRENT_RESULT = self
         self.prop, self.tier, self.level = prop, tier, level
         self.t0 = time.time()
         self.violations = []      # (class, replay_path, text)
